@@ -20,7 +20,7 @@ structure LinIso (Q : Vec3 ℝ → Vec3 ℝ) : Prop where
 
 /-! ### helpers -/
 
-theorem foldl_add_eq_sum (f : Nat → ℝ) (n : Nat) :
+theorem foldl_add_eq_sum_pp (f : Nat → ℝ) (n : Nat) :
     (List.range n).foldl (fun acc i => acc + f i) 0 = ∑ i ∈ Finset.range n, f i := by
   induction n with
   | zero => simp
@@ -33,7 +33,7 @@ theorem ptSource_eq_sum (thr : ℝ) (x : Vec3 ℝ) (pts : Nat → Vec3 ℝ) (n :
       (∑ i ∈ Finset.range n, interiorAngle thr x pts n i - ((n - 2 : Nat) : ℝ) * Real.pi) /
         (Real.pi * ((1 + 1) + (1 + 1))) := by
   unfold ptSource sphericalExcess
-  rw [foldl_add_eq_sum]
+  rw [foldl_add_eq_sum_pp]
   rfl
 
 /-- if the interior angle sums agree, so do the point-to-patch factors -/
